@@ -311,7 +311,8 @@ func (c c20) Run(inp any) kit.Case {
 	if in.Body != nil {
 		bodyBytes = []byte(*in.Body)
 	}
-	req := httptest.NewRequest(in.Method, target, bytes.NewReader(bodyBytes))
+	// the handler reads a copy: bodyBytes is decoded again below for the request as the model sees it
+	req := httptest.NewRequest(in.Method, target, bytes.NewReader(append([]byte(nil), bodyBytes...)))
 	hdr := ""
 	if in.Header != nil {
 		hdr = *in.Header
